@@ -190,6 +190,8 @@ type FuncVerifier struct {
 	nondet         []string // sources of nondeterminism met while executing (for `functional`)
 	panicStates    []panicExit // exceptional exits met while executing (see forkPanic)
 	inlineStack    []string    // keys of /repo functions currently being executed inline
+	modularLits    map[types.Object]*ast.FuncLit // local variables bound to literals with a `modular` contract
+	inWrites       map[*ast.FuncLit]bool         // literals whose write set is being collected (recursion guard)
 	keySorts       map[string]Sort // sort of every heap key ever read or written (frame obligations for keys that were only havocked)
 	curState       *State
 	localOnly      map[types.Object]bool
